@@ -498,7 +498,7 @@ class QuarterSplineRing(SplineRound):
             shell_outer_curve_points = np.insert(shell_outer_curve_points, 0, shell_outer_side_points, axis=0)
 
         # Add edges to shell 1
-        self.shell[0].add_edge(3, Spline(shell_inner_curve_points[::-1]))
+        self.shell[0].add_edge(3, Spline(shell_inner_curve_points))
         self.shell[0].add_edge(1, Spline(shell_outer_curve_points[::-1]))
 
         # Shell 2
@@ -535,7 +535,7 @@ class QuarterSplineRing(SplineRound):
             shell_outer_curve_points = np.append(shell_outer_curve_points, shell_outer_side_points[::-1], axis=0)
 
         # Add edges to shell 2
-        self.shell[1].add_edge(3, Spline(shell_inner_curve_points[::-1]))
+        self.shell[1].add_edge(3, Spline(shell_inner_curve_points))
         self.shell[1].add_edge(1, Spline(shell_outer_curve_points[::-1]))
 
         # If a circular shape use arc instead of spline
